@@ -47,6 +47,11 @@ func tptOf(r rateSpec) int64 {
 type limiter struct {
 	tl    *ratelimit.TokenLimiter
 	calls int
+	nreq  int // requests sent so far (every seventh carries an already cancelled context)
+
+	front     *ratelimit.TokenLimiter // the entry point: a limiter in front of tl
+	decoy     *ratelimit.TokenLimiter
+	decoySeen map[int64]bool
 }
 
 func rateSetOf(rates []rateSpec) (*ratelimit.RateSet, error) {
@@ -93,11 +98,37 @@ func newLimiter(capacity int64, rates []rateSpec, alts [][]rateSpec) (*limiter, 
 			return ratelimit.NewRateSet(), nil
 		})))
 	}
+	// options that change nothing (the default error handler, the default logger), before or after the others
+	neutral := []ratelimit.TokenLimiterOption{ratelimit.ErrorHandler(&ratelimit.RateErrHandler{}), ratelimit.Logger(&utils.NoopLogger{})}
+	if capacity%2 == 0 {
+		opts = append(neutral, opts...)
+	} else {
+		opts = append(opts, neutral...)
+	}
 	tl, err := ratelimit.New(next, extract, rs, opts...)
 	if err != nil {
 		return nil, err
 	}
 	l.tl = tl
+	// ... behind another limiter of the same kind (one source for everybody, a rate nobody reaches)
+	plenty := ratelimit.NewRateSet()
+	_ = plenty.Add(time.Second, 1<<40, 1<<40)
+	one := utils.ExtractorFunc(func(*http.Request) (string, int64, error) { return "everybody", 1, nil })
+	front, err := ratelimit.New(tl, one, plenty)
+	if err != nil {
+		return nil, err
+	}
+	l.front = front
+	// a second, unrelated limiter in the same process (one request per hour and source): every source that shows up uses
+	// up its token there; instances share nothing
+	once := ratelimit.NewRateSet()
+	_ = once.Add(time.Hour, 1, 1)
+	decoy, err := ratelimit.New(http.HandlerFunc(func(http.ResponseWriter, *http.Request) {}), extract, once)
+	if err != nil {
+		return nil, err
+	}
+	l.decoy = decoy
+	l.decoySeen = map[int64]bool{}
 	return l, nil
 }
 
@@ -113,9 +144,18 @@ func (l *limiter) requestWith(src, amount, sel int64) (int64, int64, bool, strin
 	}
 	req.Header.Set("X-Source", srcName(src))
 	req.Header.Set("X-Amount", strconv.FormatInt(amount, 10))
+	if !l.decoySeen[src] {
+		l.decoySeen[src] = true
+		dreq := httptest.NewRequest(http.MethodGet, "http://example.com/", nil)
+		dreq.Header.Set("X-Source", srcName(src))
+		dreq.Header.Set("X-Amount", "1")
+		l.decoy.ServeHTTP(httptest.NewRecorder(), dreq)
+	}
+	l.nreq++
+	req = hlib.Abandoned(hlib.Vary(req, l.nreq), l.nreq%7 == 0)
 	rec := httptest.NewRecorder()
 	before := l.calls
-	l.tl.ServeHTTP(rec, req)
+	l.front.ServeHTTP(rec, req)
 	ran := l.calls == before+1
 	switch rec.Code {
 	case 200:
